@@ -251,10 +251,17 @@ func vfRQSequence(res *vfRes, r *vfRand, idata bool, maxEntries uint32, nops int
 					}
 				}
 			case 2:
+				// a stale skip (a FORWARD-TSN that was duplicated or overtaken): serially behind the cursor by
+				// up to half the number space, so that it is numerically *larger* whenever the cursor is small
+				dist := r.Pick(1, 2, 3, 1000, 32767)
+				ssn0, mid0 := q.nextSSN, q.nextMID
 				if idata {
-					q.forwardTSNForOrderedMID(q.nextMID - uint32(1+r.Intn(3))) //nolint:gosec // stale
+					q.forwardTSNForOrderedMID(q.nextMID - uint32(dist)) //nolint:gosec // stale
 				} else {
-					q.forwardTSNForOrdered(q.nextSSN - uint16(1+r.Intn(3))) //nolint:gosec
+					q.forwardTSNForOrdered(q.nextSSN - uint16(dist)) //nolint:gosec
+				}
+				if q.nextSSN != ssn0 || q.nextMID != mid0 {
+					return "", fail("forward/cursor-moved-by-stale-skip", "a skip up to a sequence number %d behind the delivery cursor moved the cursor from SSN %d / MID %d to SSN %d / MID %d: messages from the old cursor on can no longer be delivered and are held for ever", dist, ssn0, mid0, q.nextSSN, q.nextMID)
 				}
 			default:
 				if idata {
